@@ -1,6 +1,7 @@
 package rules
 
 import (
+	"fmt"
 	"go/constant"
 	"go/token"
 	"go/types"
@@ -226,7 +227,7 @@ func returnedClosures(fn *ssa.Function) []*ssa.Function {
 // Nested anonymous/named struct fields are descended into when they are stored
 // field by field. Returns the list of fields that are not copied.
 func copyCompleteness(fn *ssa.Function, st *types.Struct, owner string) (missing []string) {
-	recv := fn.Params[0]
+	recv := paramOf(fn, 0)
 	// rootOf follows an address/selection chain down to its base object
 	rootOf := func(v ssa.Value) ssa.Value {
 		for i := 0; i < 16; i++ {
@@ -325,4 +326,14 @@ func copyCompleteness(fn *ssa.Function, st *types.Struct, owner string) (missing
 		}
 	}
 	return missing
+}
+
+// paramOf is parameter #idx (receiver = 0) of fn. Named functions reach the rules only through
+// Program.Func, which refuses a function whose signature is not the confirmed one (core.checkSignature),
+// so the position is reliable; an index out of range is an unresolved anchor, not a violation.
+func paramOf(fn *ssa.Function, idx int) *ssa.Parameter {
+	if idx >= len(fn.Params) {
+		panic(core.AnchorError{Msg: fmt.Sprintf("%s has no parameter #%d", fn.String(), idx)})
+	}
+	return fn.Params[idx]
 }
